@@ -10,7 +10,7 @@
    backward path: crop(real(fft2|ifft2(ifftshift(pad(fftshift(T)))))) = Solver.synth at the cropped cells *)
 From Coq Require Import ZArith List Field Ring Lia Bool Arith.
 From BL Require Import Base.Ops Base.Laws Model.Solver Proofs.Sums Proofs.Dft Proofs.StepProofs Proofs.ModeProofs
-  Proofs.SpecProofs Proofs.Plumbing Proofs.C04Proofs Proofs.C07Mirror Model.SolverArray.
+  Proofs.SpecProofs Proofs.Plumbing Proofs.C04Proofs Proofs.C03Proofs Proofs.C07Mirror Model.SolverArray.
 Import ListNotations.
 Set Default Proof Using "All".
 
@@ -513,6 +513,88 @@ Qed.
 Theorem array_error_iff a e : solve_array O a = inr e <-> solve O a = inr e.
 Proof.
   unfold solve_array, solve. destruct (geometry O a); split; intros H; try discriminate; injection H as ->; reflexivity.
+Qed.
+
+(* ------------------------------------------------------------------ transfer of sum-level theorems *)
+
+(* horizontal sum of slot k of an array *)
+Definition asum (x : arr) (ny nx k : nat) : C :=
+  csum O (map (fun j => csum O (map (fun i => ar_at O x (Z.of_nat k) (Z.of_nat j) (Z.of_nat i)) (seq 0 nx))) (seq 0 ny)).
+
+Lemma asum_flx a g k : wf O a -> geometry O a = inl g -> (0 < g_nlx O g)%nat -> (0 < g_nly O g)%nat ->
+  (k < length (a_levels O a))%nat ->
+  asum (field_arr O a g snd) (g_ny O g) (g_nx O g) k = hsum O (field O a g snd (table O a g)) (g_ny O g) (g_nx O g) k.
+Proof.
+  intros Hwf Hg Hx Hy Hk. unfold asum, hsum.
+  apply (csum_map_ext O L). intros j Hj. apply in_seq in Hj.
+  apply (csum_map_ext O L). intros i Hi. apply in_seq in Hi.
+  rewrite (flx_cell O L) by (assumption || lia). apply field_arr_cell; assumption.
+Qed.
+
+Lemma asum_conc a g k : wf O a -> geometry O a = inl g -> (0 < g_nlx O g)%nat -> (0 < g_nly O g)%nat ->
+  (k < length (a_levels O a))%nat ->
+  asum (field_arr O a g fst) (g_ny O g) (g_nx O g) k = hsum O (field O a g fst (table O a g)) (g_ny O g) (g_nx O g) k.
+Proof.
+  intros Hwf Hg Hx Hy Hk. unfold asum, hsum.
+  apply (csum_map_ext O L). intros j Hj. apply in_seq in Hj.
+  apply (csum_map_ext O L). intros i Hi. apply in_seq in Hi.
+  rewrite (conc_cell O L) by (assumption || lia). apply field_arr_cell; assumption.
+Qed.
+
+(* C03 on the array model: flux conservation level by level, unit footprint mass *)
+Theorem array_flux_sum (a : args) (g : geom) k :
+  wf O a -> geometry O a = inl g -> a_single O a = false ->
+  g_px O g = 0%nat -> g_py O g = 0%nat -> g_nx O g <> 0%nat -> g_ny O g <> 0%nat ->
+  (0 < g_nlx O g)%nat -> (0 < g_nly O g)%nat -> (k < length (a_levels O a))%nat ->
+  asum (field_arr O a g snd) (g_ny O g) (g_nx O g) k
+  = cre O (ofN (g_ny O g) * ofN (g_nx O g) * q0_hat O a g 0%nat 0%nat).
+Proof.
+  intros Hwf Hg Hd Hpx Hpy Hnx Hny Hlx Hly Hk.
+  rewrite asum_flx by assumption. apply (flux_sum O L); assumption.
+Qed.
+
+Theorem array_conc_sum (a : args) (g : geom) k :
+  wf O a -> geometry O a = inl g -> a_single O a = false ->
+  g_px O g = 0%nat -> g_py O g = 0%nat -> g_nx O g <> 0%nat -> g_ny O g <> 0%nat ->
+  (0 < g_nlx O g)%nat -> (0 < g_nly O g)%nat -> (k < length (a_levels O a))%nat ->
+  asum (field_arr O a g fst) (g_ny O g) (g_nx O g) k
+  = cre O (ofN (g_ny O g) * ofN (g_nx O g)
+           * (a_p000 O a - q0_hat O a g 0%nat 0%nat * resist O a g (nth k (a_levels O a) 0%nat))).
+Proof.
+  intros Hwf Hg Hd Hpx Hpy Hnx Hny Hlx Hly Hk.
+  rewrite asum_conc by assumption. apply (conc_sum O L); assumption.
+Qed.
+
+Theorem array_footprint_mass (a : args) (g : geom) k :
+  wf O a -> geometry O a = inl g -> a_single O a = false -> a_footprint O a = true ->
+  g_px O g = 0%nat -> g_py O g = 0%nat -> g_nx O g <> 0%nat -> g_ny O g <> 0%nat ->
+  (0 < g_nlx O g)%nat -> (0 < g_nly O g)%nat -> (k < length (a_levels O a))%nat ->
+  asum (field_arr O a g snd) (g_ny O g) (g_nx O g) k = 1.
+Proof.
+  intros Hwf Hg Hd Hfp Hpx Hpy Hnx Hny Hlx Hly Hk.
+  rewrite asum_flx by assumption. apply (footprint_mass O L); assumption.
+Qed.
+
+(* ------------------------------------------------------------------ non-vacuity *)
+
+(* a 2 x 3 source (odd nx), two nodes, modes (2, 2), halo 0, dispersion mode, one level *)
+Definition ex_args : args :=
+  mkArgs O [[1; 0; 1]; [0; 1; 1]] [0; 1]
+         (mkProf O [1; 1] [0; 0] [1; 1] [1; 1] [1; 1])
+         1 1 [1%nat] 2 2 0 0 0 false false (Some 0) false.
+
+Lemma ex_args_accepted :
+  wf O ex_args /\ (0 < a_nlx O ex_args)%nat /\ (0 < a_nly O ex_args)%nat /\
+  exists r, solve O ex_args = inl r.
+Proof.
+  split.
+  { constructor; try reflexivity. intros row [<-|[<-|[]]]; reflexivity. }
+  split; [cbn; lia|]. split; [cbn; lia|].
+  unfold solve, geometry.
+  cbn [ex_args a_nlx a_nly a_q0 a_z a_xmx a_ymx a_halo a_levels Nat.odd negb Nat.even orb length hd].
+  replace (0 / (1 / ofN 3)) with 0 by (rewrite !(Fdiv_def (L_field O L)); ring).
+  replace (0 / (1 / ofN 2)) with 0 by (rewrite !(Fdiv_def (L_field O L)); ring).
+  rewrite (L_trunc_0 O L). cbn. eexists. reflexivity.
 Qed.
 
 End ArrayRefine.
